@@ -210,10 +210,9 @@ pub fn gen_query(rng: &mut Rng, sch: &Schema, opts: &QueryOpts, join_path: &str)
     if aggregate && !group_parts.is_empty() {
         clauses.push(format!("GROUP BY {}", group_parts.join(", ")));
     }
-    if aggregate && rng.chance(1, 3) {
-        let h = if !having_pool.is_empty() && rng.chance(2, 3) { rng.pick(&having_pool).clone() } else { gen_aggregate(rng, sch, joined) };
-        let mut cond = format!("{} {} {}", h, rng.pick(&[">", ">=", "<", "=", "!="]), rng.pick(&["0", "1", "2", "5"]));
-        if !group_parts.is_empty() && rng.chance(1, 3) {
+    if aggregate && rng.chance(2, 5) {
+        let mut cond = gen_having(rng, sch, joined, &having_pool);
+        if !group_parts.is_empty() && rng.chance(1, 4) {
             cond = format!("{} AND {} IS NOT NULL", cond, group_parts[0]);
         }
         clauses.push(format!("HAVING {}", cond));
@@ -227,6 +226,32 @@ pub fn gen_query(rng: &mut Rng, sch: &Schema, opts: &QueryOpts, join_path: &str)
         q.push_str(&c);
     }
     GenQuery { text: q, is_aggregate: aggregate, joined }
+}
+
+/// HAVING: a boolean combination (AND / OR / NOT, 1-3 comparisons) of aggregates against constants inside the data
+/// range, with deliberate repeats of the SAME aggregate (range conditions `A >= lo AND A <= hi`, `A = 1 OR A = 3`),
+/// aggregates that also occur in the select list, and mixes of two different aggregates
+pub fn gen_having(rng: &mut Rng, sch: &Schema, joined: bool, select_list: &[String]) -> String {
+    const INT_AGGS: &[&str] = &["COUNT(*)", "COUNT(*)", "COUNT(v)", "COUNT(w)", "COUNT(s)", "SUM(v)", "SUM(w)", "MAX(w)", "MIN(v)", "MAX(v)", "COUNT(DISTINCT k)", "COUNT(DISTINCT w)", "AVG(v)"];
+    let pick = |rng: &mut Rng| -> String {
+        if !select_list.is_empty() && rng.chance(2, 5) { rng.pick(select_list).clone() }
+        else if rng.chance(1, 8) { gen_aggregate(rng, sch, joined) }
+        else { (*rng.pick(INT_AGGS)).to_owned() }
+    };
+    let cmp = |rng: &mut Rng, a: &str| -> String {
+        format!("{} {} {}", a, rng.pick(&[">", ">=", "<", "<=", "=", "!="]), rng.pick(&["0", "1", "2", "3", "5", "10"]))
+    };
+    let a = pick(rng);
+    let b = pick(rng);
+    match rng.below(8) {
+        0 | 1 => cmp(rng, &a),
+        2 => { let lo = rng.below(3); format!("{} >= {} AND {} <= {}", a, lo, a, lo + 1 + rng.below(3)) }
+        3 => format!("{} AND {}", cmp(rng, &a), cmp(rng, &b)),
+        4 => format!("{} OR {}", cmp(rng, &a), cmp(rng, &a)),
+        5 => format!("NOT ({})", cmp(rng, &a)),
+        6 => format!("{} AND {} AND {}", cmp(rng, &a), cmp(rng, &a), cmp(rng, &b)),
+        _ => format!("({} OR {}) AND {}", cmp(rng, &a), cmp(rng, &b), cmp(rng, &a)),
+    }
 }
 
 pub fn gen_aggregate(rng: &mut Rng, sch: &Schema, joined: bool) -> String {
